@@ -64,3 +64,148 @@ func VerifH_C08_MinMax() {
 }
 
 var _ = immutable.None[int]
+
+// VerifH_C07_Request — a whole single-collection request against direct evaluation, with and without a secondary index
+// on the filtered / ordered field (C07: the index never changes the answer; C08: filter, order, limit semantics).
+//
+//	User(filter: {age: {<op>: c}}, order: {age: <dir>}, limit: l, offset: o) { name age }
+//
+// conf: op (0 none, 1 _eq, 2 _ne, 3 _gt, 4 _ge, 5 _lt, 6 _le, 7 _in [c, c2], 8 _nin [c, c2]), dir (0 none, 1 ASC, 2 DESC),
+// idx (index bits as in the C09 harness: 2 = secondary index on User.age), n (documents, ages 0..3 or null)
+func VerifH_C07_Request() {
+	op, dir, n := vConfInt("op"), vConfInt("dir"), vConfInt("n")
+	e := qNewEnv(vConfInt("idx"))
+	ids := []string{qUserIDs[0], qUserIDs[1], "bae-00000000-0000-0000-0000-0000000000a2"}
+	type person struct {
+		null bool
+		age  int64
+	}
+	ps := make([]person, n)
+	for i := range ps {
+		ps[i] = person{null: vChoose("null", 2) == 1, age: qSmall("age")}
+		f := map[string]any{"name": "U" + string(rune('0'+i))}
+		if ps[i].null {
+			f["age"] = nil
+		} else {
+			f["age"] = ps[i].age
+		}
+		e.putDoc("User", ids[i], f)
+	}
+	c, c2 := qSmall("c"), qSmall("c")
+	match := func(p person) bool {
+		switch op {
+		case 1:
+			return !p.null && p.age == c
+		case 2:
+			return p.null || p.age != c
+		case 3:
+			return !p.null && p.age > c
+		case 4:
+			return !p.null && p.age >= c
+		case 5:
+			return !p.null && p.age < c
+		case 6:
+			return !p.null && p.age <= c
+		case 7:
+			return !p.null && (p.age == c || p.age == c2)
+		case 8:
+			return p.null || (p.age != c && p.age != c2)
+		}
+		return true
+	}
+	sel := &request.Select{Field: request.Field{Name: "User"}, ChildSelect: request.ChildSelect{Fields: []request.Selection{qField("name"), qField("age")}}}
+	names := []string{"", "_eq", "_ne", "_gt", "_ge", "_lt", "_le", "_in", "_nin"}
+	if op != 0 {
+		var operand any = c
+		if op >= 7 {
+			operand = []any{c, c2}
+		}
+		sel.Filter = immutable.Some(request.Filter{Conditions: map[string]any{"age": map[string]any{names[op]: operand}}})
+	}
+	limit, offset := 0, 0
+	if dir != 0 {
+		d := request.ASC
+		if dir == 2 {
+			d = request.DESC
+		}
+		sel.OrderBy = immutable.Some(request.OrderBy{Conditions: []request.OrderCondition{{Fields: []string{"age"}, Direction: d}}})
+		limit, offset = vChoose("limit", 3), vChoose("offset", 3)
+		if limit > 0 {
+			sel.Limit = immutable.Some(uint64(limit))
+		}
+		if offset > 0 {
+			sel.Offset = immutable.Some(uint64(offset))
+		}
+	}
+	res, err := e.run(sel)
+	vCover("ran")
+	vAssert(err == nil, "query-no-error")
+	if err != nil {
+		return
+	}
+	// the matching documents
+	var want []person
+	for _, p := range ps {
+		if match(p) {
+			want = append(want, p)
+		}
+	}
+	less := func(a, b person) bool { // ascending, null first
+		if a.null != b.null {
+			return a.null
+		}
+		return !a.null && a.age < b.age
+	}
+	if dir != 0 {
+		for i := 1; i < len(want); i++ {
+			for j := i; j > 0; j-- {
+				swap := less(want[j], want[j-1])
+				if dir == 2 {
+					swap = less(want[j-1], want[j])
+				}
+				if !swap {
+					break
+				}
+				want[j], want[j-1] = want[j-1], want[j]
+			}
+		}
+		if offset > len(want) {
+			offset = len(want)
+		}
+		want = want[offset:]
+		if limit > 0 && limit < len(want) {
+			want = want[:limit]
+		}
+	}
+	vAssert(len(res) == len(want), "result-has-exactly-the-matching-documents-of-the-window")
+	if len(res) != len(want) {
+		return
+	}
+	got := make([]person, len(res))
+	for i, row := range res {
+		a, ok := row["age"].(int64)
+		got[i] = person{null: !ok, age: a}
+	}
+	if dir != 0 {
+		for i := range want {
+			vAssert(got[i].null == want[i].null && (got[i].null || got[i].age == want[i].age), "sort-keys-are-in-the-requested-order")
+		}
+	} else {
+		// the same multiset of ages (and nulls)
+		var wc, gc [5]int
+		for i := range want {
+			if want[i].null {
+				wc[4]++
+			} else {
+				wc[want[i].age]++
+			}
+			if got[i].null {
+				gc[4]++
+			} else {
+				gc[got[i].age&3]++
+			}
+		}
+		vAssert(wc == gc, "result-has-exactly-the-matching-documents-of-the-window")
+	}
+	vObserve("rows", len(res))
+}
